@@ -207,6 +207,11 @@ func (c *Chan[T]) Len() int {
 	if mode != Controlled {
 		return len(c.real)
 	}
+	// a read of the channel's state: a scheduling point of its own, recorded as a read access, so that the orders
+	// of this look and another thread's send / receive are told apart (check-then-act on a channel length)
+	if !sc.dead {
+		Point(OpLoad, &c.core.obj, nil)
+	}
 	return c.core.n
 }
 
